@@ -42,7 +42,7 @@ def run_part(part, tier, workdir, seed):
     res['checker_cmd'] = 'cd %s && CARGO_TARGET_DIR=%s C2PA_VERIF_DIR=%s VERIF_B_TIER=%s %s' % (cwd, target, VERIF, os.environ['VERIF_B_TIER'], ' '.join(cmd))
     os.makedirs(workdir, exist_ok=True)
     log = os.path.join(workdir, 'native-%s.log' % part['name'].replace(':', '_'))
-    timeout = part.get('timeout', 2400)
+    timeout = int(part.get('timeout', 2400) * float(os.environ.get('VERIF_TIMEOUT_FACTOR', '3')))
     rc, out = kani_engine.run_cmd(cmd, cwd, timeout, log)
     res['wall_s'] = time.time() - t0
     res['tool_output'] = out[-3000:]
